@@ -79,6 +79,11 @@ type Case struct {
 	// StopAfter > 0: the handler ends the call after that many messages.
 	StopAfter int `json:"stop_after,omitempty"`
 
+	// Accept: the codec the client asks the replies in ("json" | "proto"),
+	// sent as the Accept header of an HTTP-transcoded call; "" = no Accept
+	// header (the replies follow the request Content-Type).
+	Accept string `json:"accept,omitempty"`
+
 	Frag  int    `json:"frag,omitempty"`  // fragmenting listener width (real transports)
 	Abort string `json:"abort,omitempty"` // real transports: end | rst | close
 	Step  bool   `json:"lockstep,omitempty"`
@@ -92,7 +97,28 @@ func (c *Case) codecName() string {
 	if c.CE != "" {
 		n += "+" + c.CE
 	}
+	if c.Accept != "" {
+		// codec pair of the stream: request codec > reply codec asked for
+		n += ">" + c.Accept
+	}
 	return n
+}
+
+// acceptType is the media type of the Accept header of a codec-pair case.
+func (c *Case) acceptType() string {
+	if c.Accept == "json" {
+		return "application/json"
+	}
+	return "application/protobuf"
+}
+
+// typeRel names the relation of the request and reply message types of the
+// method (finding keys / shape keys of the codec-pair lane).
+func (c *Case) typeRel() string {
+	if c.inDesc() == c.outDesc() {
+		return "same-message-type"
+	}
+	return "distinct-message-types"
 }
 
 func (c *Case) pathPrefix() string {
@@ -114,7 +140,7 @@ func (c *Case) prefix() string { return c.T + "/" + c.codecName() }
 
 func (c *Case) clientStreams() bool {
 	switch c.Shape {
-	case "cs", "bidi", "bidinb", "upload", "upbidi":
+	case "cs", "bidi", "bidinb", "upload", "upbidi", "csx", "bidix":
 		return true
 	}
 	return false
@@ -122,7 +148,7 @@ func (c *Case) clientStreams() bool {
 
 func (c *Case) serverStreams() bool {
 	switch c.Shape {
-	case "ss", "ssget", "bidi", "bidinb", "download", "upbidi":
+	case "ss", "ssget", "bidi", "bidinb", "download", "upbidi", "ssx", "bidix":
 		return true
 	}
 	return false
@@ -144,6 +170,12 @@ func (c *Case) method() string {
 		return "UpEcho"
 	case "download":
 		return "Download"
+	case "csx":
+		return "CSX"
+	case "ssx":
+		return "SSX"
+	case "bidix":
+		return "BidiX"
 	}
 	panic("shape " + c.Shape)
 }
@@ -154,6 +186,8 @@ func (c *Case) outDesc() protoreflect.MessageDescriptor {
 		return vschema.Msg("vf.Rsp")
 	case "download":
 		return bodyDesc()
+	case "csx", "ssx", "bidix":
+		return itemDesc()
 	}
 	return chunkDesc()
 }
@@ -185,6 +219,12 @@ func (c *Case) httpPath() string {
 		return "/upecho/f1"
 	case "download":
 		return "/download/d1"
+	case "csx":
+		return "/csx"
+	case "ssx":
+		return "/ssx"
+	case "bidix":
+		return "/bidix"
 	}
 	panic("shape " + c.Shape)
 }
@@ -402,6 +442,9 @@ func (c *Case) inprocRequest(id string) *http.Request {
 		if c.Shape == "upbidi" {
 			hdr.Set("Accept", "application/json")
 		}
+		if c.Accept != "" {
+			hdr.Set("Accept", c.acceptType())
+		}
 		if c.KnownLen && c.Trunc < 0 {
 			// the request announces its Content-Length (of the encoded body)
 			return wire.NewRequest("POST", c.httpPath(), "", hdr, rd, int64(len(c.Body)))
@@ -438,6 +481,7 @@ func (c *Case) decodeResponse(code int, hdr, trailer http.Header, body []byte) *
 			return co
 		}
 		ct := hdr.Get("Content-Type")
+		co.ctype = ct
 		isJSON := strings.HasPrefix(ct, "application/json")
 		if c.serverStreams() {
 			if isJSON {
@@ -648,6 +692,12 @@ func isEmptyMsg(m proto.Message) bool { return proto.Size(m) == 0 }
 func (e *env) judge(c *Case, s snapshot, co *cobs, clientSaw bool) (vs []viol, outcome string) {
 	pre := c.prefix()
 	add := func(obs, class, what string) {
+		if c.Accept != "" {
+			// codec-pair lane: the key names the pair (in the prefix) and the
+			// relation of the method's request and reply types
+			class += "@" + c.typeRel()
+			what += fmt.Sprintf(" [request %s, Accept %s, response Content-Type %q]", c.contentType(), c.acceptType(), coType(co))
+		}
 		vs = append(vs, viol{pre + ":" + obs + ":" + class, what})
 		if outcome == "" {
 			outcome = obs
@@ -677,6 +727,33 @@ func (e *env) judge(c *Case, s snapshot, co *cobs, clientSaw bool) (vs []viol, o
 		if co.hasStatus {
 			e.r.Count("client_final_statuses", 1)
 		}
+	}
+
+	if c.Accept != "" && co != nil && clientSaw {
+		e.r.Count("codec_pair_streams", 1)
+		e.r.Count("codec_pair_streams_"+c.typeRel(), 1)
+		if c.acceptType() != c.contentType() {
+			e.r.Count("codec_pair_streams_reply_codec_differs_from_request_codec", 1)
+		}
+		switch {
+		case co.httpCode != 200:
+			e.r.Count("codec_pair_error_responses", 1)
+		case strings.HasPrefix(co.ctype, "application/json"):
+			e.r.Count("codec_pair_responses_announced_json", 1)
+		case strings.HasPrefix(co.ctype, "application/protobuf"):
+			e.r.Count("codec_pair_responses_announced_protobuf", 1)
+		case co.ctype == "":
+			e.r.Count("codec_pair_responses_without_content_type", 1)
+			if len(s.sent) > 0 {
+				e.r.Count("codec_pair_responses_without_content_type_with_replies", 1)
+			}
+		default:
+			e.r.Count("codec_pair_responses_announced_other", 1)
+		}
+		if co.httpCode == 200 && co.ctype == c.acceptType() {
+			e.r.Count("codec_pair_responses_in_the_codec_asked_for", 1)
+		}
+		e.r.Count("codec_pair_replies_decoded_with_announced_codec", len(co.msgs))
 	}
 
 	// ---- handler side: receive sequence and terminal event
@@ -923,6 +1000,13 @@ func (e *env) judge(c *Case, s snapshot, co *cobs, clientSaw bool) (vs []viol, o
 		outcome = "ok"
 	}
 	return vs, outcome
+}
+
+func coType(co *cobs) string {
+	if co == nil {
+		return ""
+	}
+	return co.ctype
 }
 
 func min(a, b int) int {
